@@ -45,6 +45,7 @@ import SwcVerif.Props.C16Gen
 #print axioms C16.generated_smooth_eq_model
 #print axioms C16.generated_iso_step_le
 #print axioms C16.generated_smooth_endpoints_count
+#print axioms C16.generated_lin_last
 #print axioms C16.pairArgmin_spec
 #print axioms C16.pair_step_inv
 #print axioms C16.pair_exact
